@@ -81,6 +81,15 @@ func allConfigs() []*config {
 	add(&config{family: "go-empty", name: "empty/big", menu: []string{"i2^53", "f2^53", "i2^62", "f2^62", "f2^63", "imax", "imin", "f-2^63"}, depthQ: 4, depthT: 5})
 	add(&config{family: "go-empty", name: "empty/wide", menu: []string{"i1", "i2", "i3", "f3", "i0", "i-1", "s:a", "s:abcdefgh", "true", "false", "f1.5", "G47a"}, depthQ: 3, depthT: 4})
 
+	// narrow and deep: 5 keys, values nil/1 (the reachable state space nearly saturates)
+	nv := []int{0, 1}
+	add(&config{family: "go-deep", name: "deep/empty-arr", menu: []string{"i1", "i2", "i3", "i4", "f2"}, vals: nv, groups: 2, depthQ: 8, depthT: 12})
+	add(&config{family: "go-deep", name: "deep/empty-mix", menu: []string{"i1", "s:a", "f1.5", "true", "T02a"}, vals: nv, groups: 2, depthQ: 8, depthT: 12})
+	add(&config{family: "go-deep", name: "deep/int8", start: sets(1, ints(1, 8)...), menu: []string{"i7", "i8", "i9", "i10", "f9"}, vals: nv, groups: 2, depthQ: 7, depthT: 10})
+	add(&config{family: "go-deep", name: "deep/str8", start: sets(1, str8...), menu: []string{"S05c", "S21a", "S01a", "S17a", "S15a"}, vals: nv, groups: 2, depthQ: 7, depthT: 10, note: "8 -> 16 slots, two new keys sharing primary slot 5"})
+	add(&config{family: "go-deep", name: "deep/str16", start: sets(1, str16...), menu: []string{"S49a", "S01a", "S33a", "S01b", "S17a"}, vals: nv, groups: 2, depthQ: 7, depthT: 10, note: "16 -> 32 slots; S49a joins the chain of slot 1 in 16 and slot 17 in 32"})
+	add(&config{family: "go-deep", name: "deep/mix9", start: mix9, menu: []string{"i4", "i5", "S01a", "f1.5", "S17a"}, vals: nv, groups: 2, depthQ: 7, depthT: 10})
+
 	// ---- integer keys 1..n (array part growth)
 	add(&config{family: "go-int", name: "int8", start: sets(1, ints(1, 8)...), menu: []string{"i1", "i4", "i8", "i9", "i10", "f8", "f9", "i-1", "i16", "s:a", "f1.5"}, depthQ: 3, depthT: 4})
 	add(&config{family: "go-int", name: "int9", start: sets(1, ints(1, 9)...), menu: []string{"i1", "i8", "i9", "i10", "f9", "f10", "i16", "i17", "s:a", "i-1"}, depthQ: 3, depthT: 4})
